@@ -97,8 +97,8 @@ var vsClauses = []vrClause{
 		Rule:  "exactly one error item at the corrupted line's position; all other items intact",
 		Gen:   vsGenIsolation, Run: vsRunIsolation},
 	{Prop: "C18", Name: "stop",
-		Bound: "random inputs (valid, with bad lines) x 4 APIs x every stop position 1..N+1",
-		Rule:  "no callback after the consumer stops, no panic, items == prefix of the uninterrupted run",
+		Bound: "3 fixed inputs and random inputs (valid, with bad lines) x 4 APIs x every stop position 1..N+1; failing underlying reader (Reader and ReaderHeader only): 5 small fixed files (3 well-formed, 1 with a malformed middle line, 1 with a malformed last line) x every fault offset 0..len x {fails once then EOF, fails forever} x every stop position 1..N+1 (N = items of the uninterrupted run of that API with that fault), cut short if the time budget ends first",
+		Rule:  "no callback after the consumer stops, no panic, items == prefix of the uninterrupted run; with \"fault\" >= 0 both runs use a fresh reader that delivers data[:fault] and then fails with a non-EOF error (\"forever\": every time, else once and then io.EOF)",
 		Gen:   vsGenStop, Run: vsRunStop},
 }
 
@@ -2119,6 +2119,26 @@ func vsGenStop(g *vrGen) {
 	emit([]byte("@HD\tVN:1.6\nq\t0\t*\t0\t0\t*\t*\t0\t0\t*\t*\nbad line\nq2\t0\t*\t0\t0\t*\t*\t0\t0\t*\t*\tNM:i:1\n@CO\tlate header\nq3\t0\t*\t0\t0\t*\t*\t0\t0\t*\t*\n"))
 	emit([]byte("q\t0\t*\t0\t0\t*\t*\t0\t0\t*\t*\tXX\n"))
 	emit(nil)
+	// failing underlying reader (Reader and ReaderHeader only; not counted in n):
+	// every fault offset x {once, forever} x every stop position
+	emitFault := func(data []byte) {
+		for off := 0; off <= len(data) && !g.Expired(); off++ {
+			for _, forever := range []bool{false, true} {
+				for _, api := range apis[:2] {
+					items, _, _, _ := vsCollect(api, &vsFaultReader{data: data[:off], forever: forever}, "", 0, len(data)+20)
+					for stop := 1; stop <= len(items)+1; stop++ {
+						g.Case(map[string]any{"data": vrB(data), "stop": stop, "api": api, "fault": off, "forever": forever})
+					}
+				}
+			}
+		}
+	}
+	const rec = "q\t0\t*\t0\t0\t*\t*\t0\t0\t*\t*"
+	emitFault([]byte(rec + "\n"))
+	emitFault([]byte("@HD\tVN:1.6\n" + rec + "\n"))
+	emitFault([]byte(rec + "\r\n" + rec + "\tNM:i:1"))
+	emitFault([]byte(rec + "\nbad line\n" + rec + "\n"))
+	emitFault([]byte("@CO\tx\n" + rec + "\n" + rec + "\tXX\n"))
 	for n < max && !g.Expired() {
 		var data []byte
 		switch g.Rand.Intn(3) {
@@ -2148,7 +2168,23 @@ func vsRunStop(in map[string]any) vrResult {
 		stop = 1
 	}
 	api := vsAnyStr(in["api"])
+	what := api
 	var r1, r2 io.Reader = bytes.NewReader(data), bytes.NewReader(data)
+	if v, ok := in["fault"]; ok && v != nil && vrInt(v) >= 0 {
+		// failing underlying reader: delivers data[:fault], then a non-EOF error
+		// (once and then io.EOF, or forever); a fresh one for each of the two runs.
+		if api != "Reader" && api != "ReaderHeader" {
+			panic("harness: fault needs api Reader or ReaderHeader")
+		}
+		off := vrInt(v)
+		if off > len(data) {
+			off = len(data)
+		}
+		forever := vrBool(in["forever"])
+		r1 = &vsFaultReader{data: data[:off], forever: forever}
+		r2 = &vsFaultReader{data: data[:off], forever: forever}
+		what = fmt.Sprintf("%s(reader failing after %d of %d bytes, forever=%v)", api, off, len(data), forever)
+	}
 	path := ""
 	if api == "File" || api == "FileHeader" {
 		var dir string
@@ -2158,14 +2194,14 @@ func vsRunStop(in map[string]any) vrResult {
 	limit := len(data) + 20
 	full, _, capped, p := vsCollect(api, r1, path, 0, limit)
 	if p != nil || capped {
-		return vrResult{Observed: fmt.Sprintf("uninterrupted %s: panic %v, capped %v", api, p, capped), Expected: "terminates without panic"}
+		return vrResult{Observed: fmt.Sprintf("uninterrupted %s: panic %v, capped %v", what, p, capped), Expected: "terminates without panic"}
 	}
 	got, extra, _, p := vsCollect(api, r2, path, stop, limit)
 	n := stop
 	if n > len(full) {
 		n = len(full)
 	}
-	exp := fmt.Sprintf("%s stopped at item %d: no further callback, no panic, items == first %d of %s", api, stop, n, vsItemsDesc(full))
+	exp := fmt.Sprintf("%s stopped at item %d: no further callback, no panic, items == first %d of %s", what, stop, n, vsItemsDesc(full))
 	if p != nil {
 		return vrResult{Observed: fmt.Sprintf("panic after %d items (+%d callbacks after the stop): %v", len(got), extra, p), Expected: exp}
 	}
